@@ -6,6 +6,13 @@
 
 pub use real_tokio::pin;
 pub use real_tokio::sync;
+pub use real_tokio::{join, select, try_join};
+pub use task::spawn;
+
+#[doc(hidden)]
+pub mod macros {
+    pub use real_tokio::macros::*;
+}
 
 pub mod io {
     pub use real_tokio::io::*;
